@@ -11,6 +11,9 @@ char yk_ostream[512];
 uint32_t yk_errno;
 int64_t yk_live;
 uint64_t yk_news, yk_deletes;
+void* yk_ap[YK_NALLOC];
+uint64_t yk_an[YK_NALLOC], yk_aa[YK_NALLOC];
+uint8_t yk_al[YK_NALLOC];
 uint64_t yk_clock_now;
 const void* yk_watch_ptr;
 uint32_t yk_watch_stores, yk_watch_loads;
